@@ -97,13 +97,16 @@ func FindNaluTypes(sample []byte) []NaluType {
 	if length < 4 {
 		return naluList
 	}
-	var pos uint32 = 0
-	for pos < uint32(length-4) {
+	pos := 0
+	for pos < length-4 {
 		naluLength := binary.BigEndian.Uint32(sample[pos : pos+4])
 		pos += 4
 		naluType := GetNaluType(sample[pos])
 		naluList = append(naluList, naluType)
-		pos += naluLength
+		if uint64(naluLength) > uint64(length-pos) {
+			break // bad length field
+		}
+		pos += int(naluLength)
 	}
 	return naluList
 }
@@ -115,13 +118,16 @@ func FindNaluTypesUpToFirstVideoNalu(sample []byte) []NaluType {
 	if length < 4 {
 		return naluList
 	}
-	var pos uint32 = 0
-	for pos < uint32(length-4) {
+	pos := 0
+	for pos < length-4 {
 		naluLength := binary.BigEndian.Uint32(sample[pos : pos+4])
 		pos += 4
 		naluType := GetNaluType(sample[pos])
 		naluList = append(naluList, naluType)
-		pos += naluLength
+		if uint64(naluLength) > uint64(length-pos) {
+			break // bad length field
+		}
+		pos += int(naluLength)
 		if IsVideoNaluType(naluType) {
 			break // Video has started
 		}
@@ -136,19 +142,22 @@ func IsVideoNaluType(naluType NaluType) bool {
 
 // ContainsNaluType - is specific NaluType present in sample
 func ContainsNaluType(sample []byte, specificNaluType NaluType) bool {
-	var pos uint32 = 0
+	pos := 0
 	length := len(sample)
 	if length < 4 {
 		return false
 	}
-	for pos < uint32(length-4) {
+	for pos < length-4 {
 		naluLength := binary.BigEndian.Uint32(sample[pos : pos+4])
 		pos += 4
 		naluType := GetNaluType(sample[pos])
 		if naluType == specificNaluType {
 			return true
 		}
-		pos += naluLength
+		if uint64(naluLength) > uint64(length-pos) {
+			break // bad length field
+		}
+		pos += int(naluLength)
 	}
 	return false
 }
@@ -195,12 +204,16 @@ func HasParameterSets(b []byte) bool {
 
 // GetParameterSets - get (multiple) VPS,  SPS, and PPS from a sample
 func GetParameterSets(sample []byte) (vps, sps, pps [][]byte) {
-	sampleLength := uint32(len(sample))
-	var pos uint32 = 0
+	sampleLength := len(sample)
+	pos := 0
 naluLoop:
-	for pos < sampleLength {
-		naluLength := binary.BigEndian.Uint32(sample[pos : pos+4])
+	for pos < sampleLength-4 {
+		naluLen := binary.BigEndian.Uint32(sample[pos : pos+4])
 		pos += 4
+		if uint64(naluLen) > uint64(sampleLength-pos) {
+			break // bad length field
+		}
+		naluLength := int(naluLen)
 		switch naluType := GetNaluType(sample[pos]); {
 		case naluType == NALU_VPS:
 			vps = append(vps, sample[pos:pos+naluLength])
